@@ -2,13 +2,15 @@
 
     [Generated/KbnGen.v] is produced on every run by the harness's Go-to-Gallina
     translator (harness/translate.go) from /repo/pkg/sparse/util.go: the bodies of
-    [KBNSummer.Add] and [KBNSummer.Sum], statement by statement.  The lemmas below
+    [KBNSummer.Add] and [KBNSummer.Sum], statement by statement, and from
+    /repo/pkg/basic/eigentrust.go the body of [Canonicalize].  The lemmas below
     identify that rendering with the hand-written [kbn_add] / [kbn_sum] that every
     theorem about sums, dot products and canonicalisation is stated over, for every
     scalar instance.  A change of the arithmetic in the source changes the generated
     file and these proofs no longer go through. *)
 From Coq Require Import Bool.
-From ET Require Import Model.Scalar Model.Sparse Generated.KbnGen.
+From Coq Require Import List.
+From ET Require Import Model.Scalar Model.Sparse Model.Basic Generated.KbnGen.
 
 Lemma kbn_translated_ok : kbn_translated = true.
 Proof. reflexivity. Qed.
@@ -39,4 +41,23 @@ Proof.
     rewrite gen_kbn_add_is_model. apply IH. }
   change (zero S, zero S) with (ksum (@kbn0 S), kcomp (@kbn0 S)). rewrite H. cbn [fst snd].
   apply gen_kbn_sum_is_model.
+Qed.
+
+(** ** basic.Canonicalize *)
+Lemma canon_translated_ok : canon_translated = true.
+Proof. reflexivity. Qed.
+
+Lemma fold_gen_is_model : forall (S : ScalarOps) (l : list (nat * S)) (k : kbn S),
+  List.fold_left (fun st entry => gen_kbn_add (fst st) (snd st) (snd entry)) l (ksum k, kcomp k) =
+  (ksum (List.fold_left kbn_add (map snd l) k), kcomp (List.fold_left kbn_add (map snd l) k)).
+Proof.
+  intros S l. induction l as [|e t IH]; intros k; [reflexivity|]. cbn [List.fold_left map fst snd].
+  rewrite gen_kbn_add_is_model. apply IH.
+Qed.
+
+Lemma gen_canon_is_model : forall (S : ScalarOps) (l : list (nat * S)), gen_canon l = canon l.
+Proof.
+  intros S l. unfold gen_canon, canon, kbn_total.
+  change (zero S, zero S) with (ksum (@kbn0 S), kcomp (@kbn0 S)). rewrite fold_gen_is_model.
+  cbv zeta. rewrite gen_kbn_sum_is_model. reflexivity.
 Qed.
